@@ -514,6 +514,16 @@ def _used_before(ssj, call, objs, L, R, mode):
     return out[0], out[1]
 
 
+def unflag_if_key_is_attr(call, L, R):
+    """Finding F15 is judged by C15 alone: everywhere else a table flagged allows_duplicate_labels=False
+    is handed over unflagged when its key attribute is also its join attribute."""
+    if L is not None and call.get('l_key') == call.get('l_attr') and not L.flags.allows_duplicate_labels:
+        L = L.set_flags(allows_duplicate_labels=True)
+    if R is not None and call.get('r_key') == call.get('r_attr') and not R.flags.allows_duplicate_labels:
+        R = R.set_flags(allows_duplicate_labels=True)
+    return L, R
+
+
 def exec_call(ssj, call, objs=None):
     if call.get('show_progress'):
         import contextlib
